@@ -164,6 +164,248 @@ Proof.
   rewrite H in Hb. exact Hb.
 Qed.
 
+(* ---------- translation of the other published records ---------- *)
+(* the record the runner reads: LiteralAfterLoop{String, StringIgnoreCase, Char, Chars, LoopNode.Set};
+   a case-sensitive String is the Go string whose bytes the analysis collected ([]rune of it = runes_of),
+   the ignore-case String is the ASCII rune list itself *)
+Definition cf_lal (L : lal) : fdlal :=
+  match lal_what L with
+  | LalChar c =>
+      {| lal_string := []; lal_string_ic := false; lal_char := c; lal_chars := []; lal_loop_set := Some (lal_loop L) |}
+  | LalChars cs =>
+      {| lal_string := []; lal_string_ic := false; lal_char := 0; lal_chars := cs; lal_loop_set := Some (lal_loop L) |}
+  | LalString b false =>
+      {| lal_string := runes_of b; lal_string_ic := false; lal_char := 0; lal_chars := [];
+         lal_loop_set := Some (lal_loop L) |}
+  | LalString cp true =>
+      {| lal_string := cp; lal_string_ic := true; lal_char := 0; lal_chars := []; lal_loop_set := Some (lal_loop L) |}
+  end.
+
+
+Definition cf_alt (a : lm_alt) : fdalt :=
+  {| la_literal := la_lit a; Finder.la_set := Analysis2.la_set a; la_lead_ws := la_lead a; la_trail_ws := la_trail a;
+     Finder.la_min := Analysis2.la_min a; Finder.la_max := Analysis2.la_max a;
+     Finder.la_req_before := Analysis2.la_req_before a; Finder.la_req_after := Analysis2.la_req_after a |}.
+
+Definition cf_chain (loop : Z) (lms : list (list lm_alt)) : fdchain :=
+  {| lc_loop_set := Some loop; lc_landmarks := map (map cf_alt) lms |}.
+
+(* ---------- static facts about what the analyses publish ---------- *)
+Section CfStatic.
+Variable cat_in : Z -> Z -> bool.
+Variable sets : list cls.
+Variable root : node.
+
+(* static: a published String is not empty *)
+Lemma cf_lal_static : forall part_cc L,
+  find_lit_after_loop cat_in part_cc sets root = Ok (Some L) ->
+  match lal_what L with LalString b _ => b <> [] | _ => True end.
+Proof.
+  intros part_cc L. unfold find_lit_after_loop. cbv zeta.
+  repeat match goal with
+  | |- context [match ?x with _ => _ end] => destruct x eqn:?; try discriminate
+  end.
+  all: intros H; injection H as <-; cbn [lal_what]; try exact I; try discriminate.
+  all: cbn [lal_what] in *;
+       match goal with H : LalString _ _ = LalString _ _ |- _ => injection H as <- <- end; try discriminate.
+  intros E. match goal with H : (2 <=? zlen ?x) = true |- _ => rewrite E in H; discriminate H end.
+Qed.
+
+Lemma cf_runes_of_nonempty : forall b, b <> [] -> runes_of b <> [].
+Proof. intros [|x b] H; [contradiction|]. unfold runes_of, decode. cbn [decode_aux map]. discriminate. Qed.
+
+Lemma cf_prefixes_static : forall part_cc ic ps,
+  find_prefixes cat_in part_cc sets ic root = Some ps -> Forall (fun P => P <> []) ps.
+Proof.
+  intros part_cc ic ps. unfold find_prefixes. cbv zeta.
+  destruct (_ || _) eqn:E; [discriminate|]. intros H. injection H as <-.
+  apply orb_false_iff in E. destruct E as [_ E]. apply Forall_forall. intros P HP ->.
+  assert (Hex : existsb (fun p => blen p <? MIN_PREFIX_LEN) (snd (fp_core cat_in part_cc sets ic true root [[]])) = true).
+  { apply existsb_exists. exists []. split; [exact HP|reflexivity]. }
+  congruence.
+Qed.
+
+(* static: MinRepeat of every published alternative is positive *)
+Lemma cf_lm_core_min : forall t lit st mn mx, lm_core cat_in sets t = Some (lit, st, mn, mx) -> 0 < mn.
+Proof.
+  intros t lit st mn mx. unfold lm_core.
+  repeat match goal with
+  | |- context [match ?x with _ => _ end] => destruct x eqn:?; try discriminate
+  end.
+  all: intros H; injection H as <- <- <- <-; lia.
+Qed.
+
+Lemma cf_extract_alt_min : forall t a, extract_alt cat_in sets t = Some a -> 0 < Analysis2.la_min a.
+Proof.
+  intros t a. unfold extract_alt. cbv zeta.
+  repeat match goal with
+  | |- context [lm_core cat_in sets ?x] => let E := fresh "Ecore" in destruct (lm_core cat_in sets x) as [[[[? ?] ?] ?]|] eqn:E
+  | |- context [match ?x with _ => _ end] => destruct x eqn:?; try discriminate
+  end; try discriminate.
+  all: intros H; injection H as <-; cbn [Analysis2.la_min];
+       match goal with E : lm_core _ _ _ = Some _ |- _ => exact (cf_lm_core_min _ _ _ _ _ E) end.
+Qed.
+
+Lemma cf_all_some_forall {A} (P : A -> Prop) : forall (l : list (option A)) r,
+  all_some l = Some r -> (forall x, In (Some x) l -> P x) -> Forall P r.
+Proof.
+  induction l as [|[a|] l IH]; intros r H HP; cbn [all_some] in H; [injection H as <-; constructor| |discriminate].
+  destruct (all_some l) as [r'|] eqn:E; [|discriminate]. injection H as <-. constructor.
+  - apply HP. left. reflexivity.
+  - apply (IH r' eq_refl). intros x Hx. apply HP. right. exact Hx.
+Qed.
+
+Lemma cf_extract_landmark_min : forall t lm, extract_landmark cat_in sets t = Some lm ->
+  Forall (fun a => 0 < Analysis2.la_min a) lm.
+Proof.
+  intros t lm. unfold extract_landmark.
+  assert (Hone : forall nd, match extract_alt cat_in sets nd with Some a => Some [a] | None => None end = Some lm ->
+                  Forall (fun a => 0 < Analysis2.la_min a) lm).
+  { intros nd H. destruct (extract_alt cat_in sets nd) as [a|] eqn:E; [|discriminate]. injection H as <-.
+    constructor; [exact (cf_extract_alt_min nd a E)|constructor]. }
+  destruct (unwrap_t t) eqn:Eu; try (apply Hone).
+  destruct (all_some (map (extract_alt cat_in sets) l)) as [[|a r]|] eqn:E; try discriminate.
+  intros H. injection H as <-.
+  apply (cf_all_some_forall _ _ _ E). intros x Hx. apply in_map_iff in Hx. destruct Hx as (nd & Hnd & _).
+  exact (cf_extract_alt_min nd x Hnd).
+Qed.
+
+Lemma cf_lm_collect_min : forall l acc r, lm_collect cat_in sets l acc = Some r ->
+  Forall (Forall (fun a => 0 < Analysis2.la_min a)) acc -> Forall (Forall (fun a => 0 < Analysis2.la_min a)) r.
+Proof.
+  induction l as [|x l IH]; intros acc r H Hacc; cbn [lm_collect] in H; [injection H as <-; exact Hacc|].
+  destruct (extract_landmark cat_in sets x) as [lm|] eqn:E.
+  - apply (IH _ _ H). apply Forall_app. split; [exact Hacc|]. constructor; [exact (cf_extract_landmark_min x lm E)|constructor].
+  - destruct acc as [|a0 acc'].
+    + destruct (is_zero_width_gap x); [|discriminate]. exact (IH _ _ H Hacc).
+    + exact (IH _ _ H Hacc).
+Qed.
+
+Lemma cf_chain_static : forall loop lms, find_landmark_chain cat_in sets root = Some (loop, lms) ->
+  Forall (Forall (fun a => 0 < Analysis2.la_min a)) lms.
+Proof.
+  intros loop lms. unfold find_landmark_chain. cbv zeta.
+  destruct (match root with NCapture o _ _ _ | NConcat o _ => is_rtl o | _ => false end); [discriminate|].
+  destruct (unwrap_t root); try discriminate.
+  destruct (zlen l <? 4); [discriminate|]. destruct l as [|first rest]; [discriminate|].
+  destruct (is_set_loop_inf (unwrap_t first)) as [lp|]; [|discriminate].
+  destruct (lm_collect cat_in sets rest []) as [r|] eqn:E; [|discriminate].
+  destruct (zlen r <? 2); [discriminate|]. intros H. injection H as <- <-.
+  apply (cf_lm_collect_min rest [] r E). constructor.
+Qed.
+
+Lemma cf_chain_len : forall loop lms, find_landmark_chain cat_in sets root = Some (loop, lms) -> 2 <= zlen lms.
+Proof.
+  intros loop lms. unfold find_landmark_chain. cbv zeta.
+  destruct (match root with NCapture o _ _ _ | NConcat o _ => is_rtl o | _ => false end); [discriminate|].
+  destruct (unwrap_t root); try discriminate.
+  destruct (zlen l <? 4); [discriminate|]. destruct l as [|first rest]; [discriminate|].
+  destruct (is_set_loop_inf (unwrap_t first)) as [lp|]; [|discriminate].
+  destruct (lm_collect cat_in sets rest []) as [r|]; [|discriminate].
+  destruct (zlen r <? 2) eqn:E2; [discriminate|]. intros H. injection H as <- <-. lia.
+Qed.
+
+Lemma cf_alts_wf : forall alts, Forall (fun a => 0 < Analysis2.la_min a) alts -> fd_alts_wf (map cf_alt alts).
+Proof.
+  intros alts H a Hin. apply in_map_iff in Hin. destruct Hin as (a0 & <- & Hin0).
+  rewrite Forall_forall in H. specialize (H a0 Hin0). cbn [cf_alt Finder.la_min]. lia.
+Qed.
+
+Lemma cf_chain_wf : forall lms, Forall (Forall (fun a => 0 < Analysis2.la_min a)) lms -> fd_chain_wf (map (map cf_alt) lms).
+Proof.
+  induction lms as [|alts lms IH]; intros H; cbn [map fd_chain_wf]; [exact I|].
+  inversion H; subst. split; [apply cf_alts_wf; assumption|apply IH; assumption].
+Qed.
+
+End CfStatic.
+
+(* ---------- the analysis' conclusions in the form the finder theorems take ---------- *)
+Section CfGeneric.
+Variable e : env.
+Local Notation n := (tlen e).
+
+(* rune-by-rune comparison: what the analysis proves is what the finder compares *)
+Lemma cf_ci_eqc : forall (lower' : Z -> Z) (P : list Z) c x,
+  (forall u, 65 <= u <= 90 -> lower' u = u + 32) ->
+  ci_match c x = true -> fd_leading_eqc lower' true P x c = true.
+Proof.
+  intros lower' P c x Hlow H. unfold ci_match in H. unfold fd_leading_eqc.
+  destruct (fd_is_ascii_runes P).
+  - unfold fd_eq_fold_ascii, fd_fold_ascii.
+    destruct ((65 <=? x) && (x <=? 90)) eqn:E1; destruct ((65 <=? c) && (c <=? 90)) eqn:E2; lia.
+  - unfold fd_eq_lower. destruct (x =? c) eqn:E; [reflexivity|].
+    assert (Hx : 65 <= x <= 90 /\ x = c - 32) by lia. rewrite (Hlow x (proj1 Hx)). lia.
+Qed.
+
+Lemma cf_ci_prefix_match : forall (lower' : Z -> Z) (cp : list Z) k,
+  (forall u, 65 <= u <= 90 -> lower' u = u + 32) -> 0 <= k ->
+  ci_ok e cp k -> fd_prefix_match (fd_leading_eqc lower' true cp) cp (skipn (Z.to_nat k) (txt e)) = true.
+Proof.
+  intros lower' cp k Hlow Hk Hok.
+  destruct (Z.eq_dec (zlen cp) 0) as [Hz|Hz].
+  - destruct cp; [reflexivity|]. rewrite fd_zlen_cons in Hz. pose proof (fd_zlen_nonneg cp). lia.
+  - pose proof (fd_zlen_nonneg cp) as Hnn.
+    destruct (Hok (zlen cp - 1) ltac:(lia)) as [Hb _]. unfold tlen in Hb.
+    apply fd_prefix_match_intro.
+    + rewrite fd_zlen_skipn by lia. lia.
+    + intros j Hj. rewrite fd_nth_skipn_Z by lia. destruct (Hok j Hj) as [_ Hc].
+      apply cf_ci_eqc; [exact Hlow|exact Hc].
+Qed.
+
+Lemma cf_pm_eqc : forall (ic : bool) c x,
+  (ic = true -> forall u, 65 <= u <= 90 -> lower e u = u + 32) ->
+  pm ic c x = true -> fd_strings_eqc (lower e) ic x c = true.
+Proof.
+  intros ic c x Hlow H. unfold pm in H. unfold fd_strings_eqc. destruct ic.
+  - unfold ci_match in H. unfold fd_eq_lower. destruct (x =? c) eqn:E; [reflexivity|].
+    assert (Hx : 65 <= x <= 90 /\ x = c - 32) by lia. rewrite (Hlow eq_refl x (proj1 Hx)). lia.
+  - unfold fd_eq_exact. exact H.
+Qed.
+
+(* one alternative: the analysis' [alt_at] gives the finder's [fd_alt_match_at] *)
+Lemma cf_alt_match : forall a s c en t, alt_at e a s c en t ->
+  fd_alt_match_at (txt e) (set_in e) (cf_alt a) c en /\ 0 <= s <= c /\ en <= t <= n /\
+  (forall i, s <= i < c -> fd_opt_set_in (set_in e) (la_lead a) (nth (Z.to_nat i) (txt e) 0) = true).
+Proof.
+  intros a s c en t (Hlead & Hrb & Hcore & Htrail & Hra & Hs0 & Htn).
+  unfold tlen in Htn.
+  assert (Hsc : s <= c) by (unfold ws_run in Hlead; destruct (la_lead a); [exact (proj1 Hlead)|lia]).
+  assert (Het : en <= t) by (unfold ws_run in Htrail; destruct (la_trail a); [exact (proj1 Htrail)|lia]).
+  split; [|split; [lia|split; [unfold tlen; lia|]]].
+  - unfold fd_alt_match_at. cbn [cf_alt Finder.la_req_before Finder.la_req_after la_lead_ws la_trail_ws la_literal
+                                 Finder.la_set Finder.la_min Finder.la_max].
+    split; [|split].
+    + intros Hb. specialize (Hrb Hb). split; [lia|]. unfold ws_run in Hlead.
+      destruct (la_lead a) as [ws|]; [|lia]. exists ws. split; [reflexivity|]. apply (proj2 Hlead). lia.
+    + destruct (Analysis2.la_set a) as [sid|].
+      * destruct Hcore as (Hl & Hmn & Hb & Hrun). right. split; [exact Hl|]. exists sid. split; [reflexivity|].
+        split; [exact Hmn|]. split.
+        -- unfold fd_alt_emax. cbn [cf_alt Finder.la_max Finder.la_min]. destruct (Analysis2.la_max a <=? 0) eqn:E; lia.
+        -- split; [lia|exact Hrun].
+      * destruct Hcore as (Hl & Hen & Hch). left. split; [exact Hl|]. split; [exact Hen|].
+        apply fd_prefix_match_intro.
+        -- rewrite fd_zlen_skipn by (unfold tlen in Htn; pose proof (fd_zlen_nonneg (la_lit a)); lia).
+           unfold tlen in Htn. lia.
+        -- intros j Hj. rewrite fd_nth_skipn_Z by lia. unfold fd_eq_exact. specialize (Hch j Hj).
+           unfold char_at in Hch. rewrite Hch. apply Z.eqb_refl.
+    + intros Ha. specialize (Hra Ha). split; [unfold tlen in Htn; lia|]. unfold ws_run in Htrail.
+      destruct (la_trail a) as [ws|]; [|lia]. exists ws. split; [reflexivity|]. apply (proj2 Htrail). lia.
+  - intros i Hi. unfold ws_run in Hlead. unfold fd_opt_set_in. destruct (la_lead a) as [ws|]; [|lia].
+    apply (proj2 Hlead). exact Hi.
+Qed.
+
+Lemma cf_chain_rest : forall lms from from', chain_from e lms from -> from' <= from ->
+  fd_chain_rest (txt e) (set_in e) (map (map cf_alt) lms) from'.
+Proof.
+  induction lms as [|alts lms IH]; intros from from' H Hle; cbn [map fd_chain_rest]; [exact I|].
+  cbn [chain_from] in H. destruct H as (a & s & c & en & t & Hin & Hfs & Hat & Hrest).
+  destruct (cf_alt_match a s c en t Hat) as (Hm & Hsc & Het & _).
+  exists (cf_alt a), c, en. split; [apply in_map; exact Hin|]. split; [lia|]. split; [lia|]. split; [exact Hm|].
+  apply (IH t en Hrest). lia.
+Qed.
+
+End CfGeneric.
+
 (* ---------- the composition ---------- *)
 Section ComposeFinder.
 Variable e : env.
@@ -345,67 +587,7 @@ Qed.
 
 (* ===== literal after a leading loop (FindMode 22) ===== *)
 
-(* rune-by-rune comparison: what the analysis proves is what the finder compares *)
-Lemma cf_ci_eqc : forall (lower' : Z -> Z) (P : list Z) c x,
-  (forall u, 65 <= u <= 90 -> lower' u = u + 32) ->
-  ci_match c x = true -> fd_leading_eqc lower' true P x c = true.
-Proof.
-  intros lower' P c x Hlow H. unfold ci_match in H. unfold fd_leading_eqc.
-  destruct (fd_is_ascii_runes P).
-  - unfold fd_eq_fold_ascii, fd_fold_ascii.
-    destruct ((65 <=? x) && (x <=? 90)) eqn:E1; destruct ((65 <=? c) && (c <=? 90)) eqn:E2; lia.
-  - unfold fd_eq_lower. destruct (x =? c) eqn:E; [reflexivity|].
-    assert (Hx : 65 <= x <= 90 /\ x = c - 32) by lia. rewrite (Hlow x (proj1 Hx)). lia.
-Qed.
 
-Lemma cf_ci_prefix_match : forall (lower' : Z -> Z) (cp : list Z) k,
-  (forall u, 65 <= u <= 90 -> lower' u = u + 32) -> 0 <= k ->
-  ci_ok e cp k -> fd_prefix_match (fd_leading_eqc lower' true cp) cp (skipn (Z.to_nat k) (txt e)) = true.
-Proof.
-  intros lower' cp k Hlow Hk Hok.
-  destruct (Z.eq_dec (zlen cp) 0) as [Hz|Hz].
-  - destruct cp; [reflexivity|]. rewrite fd_zlen_cons in Hz. pose proof (fd_zlen_nonneg cp). lia.
-  - pose proof (fd_zlen_nonneg cp) as Hnn.
-    destruct (Hok (zlen cp - 1) ltac:(lia)) as [Hb _]. unfold tlen in Hb.
-    apply fd_prefix_match_intro.
-    + rewrite fd_zlen_skipn by lia. lia.
-    + intros j Hj. rewrite fd_nth_skipn_Z by lia. destruct (Hok j Hj) as [_ Hc].
-      apply cf_ci_eqc; [exact Hlow|exact Hc].
-Qed.
-
-(* the record the runner reads: LiteralAfterLoop{String, StringIgnoreCase, Char, Chars, LoopNode.Set};
-   a case-sensitive String is the Go string whose bytes the analysis collected ([]rune of it = runes_of),
-   the ignore-case String is the ASCII rune list itself *)
-Definition cf_lal (L : lal) : fdlal :=
-  match lal_what L with
-  | LalChar c =>
-      {| lal_string := []; lal_string_ic := false; lal_char := c; lal_chars := []; lal_loop_set := Some (lal_loop L) |}
-  | LalChars cs =>
-      {| lal_string := []; lal_string_ic := false; lal_char := 0; lal_chars := cs; lal_loop_set := Some (lal_loop L) |}
-  | LalString b false =>
-      {| lal_string := runes_of b; lal_string_ic := false; lal_char := 0; lal_chars := [];
-         lal_loop_set := Some (lal_loop L) |}
-  | LalString cp true =>
-      {| lal_string := cp; lal_string_ic := true; lal_char := 0; lal_chars := []; lal_loop_set := Some (lal_loop L) |}
-  end.
-
-(* static: a published String is not empty *)
-Lemma cf_lal_static : forall part_cc L,
-  find_lit_after_loop cat_in part_cc sets root = Ok (Some L) ->
-  match lal_what L with LalString b _ => b <> [] | _ => True end.
-Proof.
-  intros part_cc L. unfold find_lit_after_loop. cbv zeta.
-  repeat match goal with
-  | |- context [match ?x with _ => _ end] => destruct x eqn:?; try discriminate
-  end.
-  all: intros H; injection H as <-; cbn [lal_what]; try exact I; try discriminate.
-  all: cbn [lal_what] in *;
-       match goal with H : LalString _ _ = LalString _ _ |- _ => injection H as <- <- end; try discriminate.
-  intros E. match goal with H : (2 <=? zlen ?x) = true |- _ => rewrite E in H; discriminate H end.
-Qed.
-
-Lemma cf_runes_of_nonempty : forall b, b <> [] -> runes_of b <> [].
-Proof. intros [|x b] H; [contradiction|]. unfold runes_of, decode. cbn [decode_aux map]. discriminate. Qed.
 
 Lemma cf_lal_fact : forall part_cc L,
   find_lit_after_loop cat_in part_cc sets root = Ok (Some L) ->
@@ -413,19 +595,20 @@ Lemma cf_lal_fact : forall part_cc L,
   (forall u, 65 <= u <= 90 -> lower e u = u + 32) ->
   forallb Utf8.valid_rune (txt e) = true ->
   fd_lal_fact st (txt e) exec (lower e) (set_in e) (cf_lal L) (lal_loop L).
-Proof.
+Proof using Hshape Hnoci Hgood Hgood' Hagree Hshort.
+  clear Hvalid Hlits Hlook Hfuel H3.
   intros part_cc L HL Hutf Hlow Hsc q Hq Hs.
   destruct (fc_succeeds_attempt e fuel root bumpq q Hs) as [s' Hat].
   destruct (a2_lit_after_loop_sound e cat_in part_cc sets Hgood' Hagree Hshort Hsc fuel root q s' L
               Hshape Hnoci Hq HL Hat) as (k & Hk & Hrun & Hlit).
   exists k. split; [exact Hk|]. split; [exact Hrun|].
-  pose proof (cf_lal_static part_cc L HL) as Hst.
+  pose proof (cf_lal_static cat_in sets root part_cc L HL) as Hst.
   unfold fd_lal_literal_at, cf_lal. unfold lal_lit_at in Hlit.
   destruct (lal_what L) as [c|b ic|cs] eqn:Ew.
   - cbn [lal_string lal_chars lal_char]. exact Hlit.
   - destruct ic.
     + cbn [lal_string lal_string_ic]. destruct b as [|b0 b']; [contradiction|].
-      apply (cf_ci_prefix_match (lower e) (b0 :: b') k Hlow); [lia|exact Hlit].
+      apply (cf_ci_prefix_match e (lower e) (b0 :: b') k Hlow); [lia|exact Hlit].
     + cbn [lal_string lal_string_ic].
       pose proof (cf_runes_of_nonempty b Hst) as Hne.
       destruct (runes_of b) as [|r0 rs] eqn:Er; [contradiction|].
@@ -445,7 +628,7 @@ Theorem cf_mode_literal_after_loop_sound : forall (part_cc : Z -> bool) (L : lal
   forall start prevlen, 0 <= start <= n ->
   exists r, find e fuel root false start prevlen = Ok r /\
             scan n false (f_min f) (fd_total (fd_optimized_finder (txt e) (set_in e) (lower e) g)) exec start prevlen = Ok r.
-Proof.
+Proof using Hshape Hnoci Hlook Hfuel H3 Hgood Hgood' Hagree Hshort.
   intros part_cc L g HL Hutf Hlow Hsc Hm Hmr Hlal. apply cf_optimized_scan; [exact Hmr| |].
   - unfold fd_mode_handled. cbv zeta. rewrite Hm. reflexivity.
   - unfold fd_mode_fact. cbv zeta. rewrite Hm. cbn.
@@ -456,32 +639,14 @@ Qed.
 
 (* ===== leading strings (FindMode 14 / 15) and the ignore-case leading string (13) ===== *)
 
-Lemma cf_pm_eqc : forall (ic : bool) c x,
-  (ic = true -> forall u, 65 <= u <= 90 -> lower e u = u + 32) ->
-  pm ic c x = true -> fd_strings_eqc (lower e) ic x c = true.
-Proof.
-  intros ic c x Hlow H. unfold pm in H. unfold fd_strings_eqc. destruct ic.
-  - unfold ci_match in H. unfold fd_eq_lower. destruct (x =? c) eqn:E; [reflexivity|].
-    assert (Hx : 65 <= x <= 90 /\ x = c - 32) by lia. rewrite (Hlow eq_refl x (proj1 Hx)). lia.
-  - unfold fd_eq_exact. exact H.
-Qed.
 
-Lemma cf_prefixes_static : forall part_cc ic ps,
-  find_prefixes cat_in part_cc sets ic root = Some ps -> Forall (fun P => P <> []) ps.
-Proof.
-  intros part_cc ic ps. unfold find_prefixes. cbv zeta.
-  destruct (_ || _) eqn:E; [discriminate|]. intros H. injection H as <-.
-  apply orb_false_iff in E. destruct E as [_ E]. apply Forall_forall. intros P HP ->.
-  assert (Hex : existsb (fun p => blen p <? MIN_PREFIX_LEN) (snd (fp_core cat_in part_cc sets ic true root [[]])) = true).
-  { apply existsb_exists. exists []. split; [exact HP|reflexivity]. }
-  congruence.
-Qed.
 
 Lemma cf_prefixes_fact : forall part_cc ic ps,
   find_prefixes cat_in part_cc sets ic root = Some ps ->
   (ic = true -> forall u, 65 <= u <= 90 -> lower e u = u + 32) ->
   fd_prefixes_fact st (txt e) exec (fd_strings_eqc (lower e) ic) ps.
-Proof.
+Proof using Hshape Hnoci Hgood Hgood' Hagree.
+  clear Hvalid Hshort Hlits Hlook Hfuel H3.
   intros part_cc ic ps Hps Hlow q Hq Hs.
   destruct (fc_succeeds_attempt e fuel root bumpq q Hs) as [s' Hat].
   destruct (a2_prefixes_sound e cat_in part_cc sets ic Hgood' Hagree fuel root q s' ps Hshape Hnoci Hq Hps Hat)
@@ -494,7 +659,7 @@ Proof.
     apply fd_prefix_match_intro.
     + rewrite fd_zlen_skipn by lia. lia.
     + intros j Hj. rewrite fd_nth_skipn_Z by lia. destruct (Hok j Hj) as [_ Hc].
-      apply cf_pm_eqc; [exact Hlow|exact Hc].
+      apply (cf_pm_eqc e); [exact Hlow|exact Hc].
 Qed.
 
 (* LeadingStrings_LeftToRight / LeadingStrings_OrdinalIgnoreCase_LeftToRight: the published LeadingPrefixes
@@ -509,11 +674,11 @@ Theorem cf_mode_leading_strings_sound : forall (part_cc : Z -> bool) (ic : bool)
   forall (set_in' : Z -> Z -> bool) start prevlen, 0 <= start <= n ->
   exists r, find e fuel root false start prevlen = Ok r /\
             scan n false (f_min f) (fd_total (fd_optimized_finder (txt e) set_in' (lower e) g)) exec start prevlen = Ok r.
-Proof.
+Proof using Hshape Hnoci Hlook Hfuel H3 Hgood Hgood' Hagree.
   intros part_cc ic ps g Hps Hne Hlow Hm Hmr Hpre Hfirst set_in'. apply cf_optimized_scan; [exact Hmr| |].
   - unfold fd_mode_handled. cbv zeta. rewrite Hm. destruct ic; reflexivity.
   - unfold fd_mode_fact. cbv zeta. rewrite Hm, Hpre.
-    pose proof (cf_prefixes_static part_cc ic ps Hps) as Hall.
+    pose proof (cf_prefixes_static cat_in sets root part_cc ic ps Hps) as Hall.
     pose proof (cf_prefixes_fact part_cc ic ps Hps Hlow) as Hfact.
     destruct ic; cbn.
     + split; [exact Hne|]. split; [exact Hall|exact Hfact].
@@ -530,172 +695,34 @@ Theorem cf_mode_leading_string_ic_sound : forall (part_cc : Z -> bool) (g : fdop
   forall (set_in' : Z -> Z -> bool) start prevlen, 0 <= start <= n ->
   exists r, find e fuel root false start prevlen = Ok r /\
             scan n false (f_min f) (fd_total (fd_optimized_finder (txt e) set_in' (lower e) g)) exec start prevlen = Ok r.
-Proof.
+Proof using Hshape Hnoci Hlook Hfuel H3 Hgood Hgood' Hagree Hshort.
+  clear Hvalid Hlits.
   intros part_cc g Hlow Hm Hmr Hpre set_in'. apply cf_optimized_scan; [exact Hmr| |].
   - unfold fd_mode_handled. cbv zeta. rewrite Hm. reflexivity.
   - unfold fd_mode_fact. cbv zeta. rewrite Hm, Hpre. cbn.
     intros q Hq Hs. destruct (fc_succeeds_attempt e fuel root bumpq q Hs) as [s' Hat].
     pose proof (attempt_reach e _ _ _ _ Hat) as Hr.
     pose proof (ci_prefix_sound e cat_in part_cc sets Hgood' Hagree Hshort root _ _ Hr Hshape Hnoci Hq) as Hok.
-    cbn [pos] in Hok. apply cf_ci_prefix_match; [exact Hlow|lia|exact Hok].
+    cbn [pos] in Hok. apply (cf_ci_prefix_match e); [exact Hlow|lia|exact Hok].
 Qed.
 
 (* ===== required landmark chain (FindMode 23) ===== *)
 
-Definition cf_alt (a : lm_alt) : fdalt :=
-  {| la_literal := la_lit a; Finder.la_set := Analysis2.la_set a; la_lead_ws := la_lead a; la_trail_ws := la_trail a;
-     Finder.la_min := Analysis2.la_min a; Finder.la_max := Analysis2.la_max a;
-     Finder.la_req_before := Analysis2.la_req_before a; Finder.la_req_after := Analysis2.la_req_after a |}.
 
-Definition cf_chain (loop : Z) (lms : list (list lm_alt)) : fdchain :=
-  {| lc_loop_set := Some loop; lc_landmarks := map (map cf_alt) lms |}.
-
-(* static: MinRepeat of every published alternative is positive *)
-Lemma cf_lm_core_min : forall t lit st mn mx, lm_core cat_in sets t = Some (lit, st, mn, mx) -> 0 < mn.
-Proof.
-  intros t lit st mn mx. unfold lm_core.
-  repeat match goal with
-  | |- context [match ?x with _ => _ end] => destruct x eqn:?; try discriminate
-  end.
-  all: intros H; injection H as <- <- <- <-; lia.
-Qed.
-
-Lemma cf_extract_alt_min : forall t a, extract_alt cat_in sets t = Some a -> 0 < Analysis2.la_min a.
-Proof.
-  intros t a. unfold extract_alt. cbv zeta.
-  repeat match goal with
-  | |- context [lm_core cat_in sets ?x] => let E := fresh "Ecore" in destruct (lm_core cat_in sets x) as [[[[? ?] ?] ?]|] eqn:E
-  | |- context [match ?x with _ => _ end] => destruct x eqn:?; try discriminate
-  end; try discriminate.
-  all: intros H; injection H as <-; cbn [Analysis2.la_min];
-       match goal with E : lm_core _ _ _ = Some _ |- _ => exact (cf_lm_core_min _ _ _ _ _ E) end.
-Qed.
-
-Lemma cf_all_some_forall {A} (P : A -> Prop) : forall (l : list (option A)) r,
-  all_some l = Some r -> (forall x, In (Some x) l -> P x) -> Forall P r.
-Proof.
-  induction l as [|[a|] l IH]; intros r H HP; cbn [all_some] in H; [injection H as <-; constructor| |discriminate].
-  destruct (all_some l) as [r'|] eqn:E; [|discriminate]. injection H as <-. constructor.
-  - apply HP. left. reflexivity.
-  - apply (IH r' eq_refl). intros x Hx. apply HP. right. exact Hx.
-Qed.
-
-Lemma cf_extract_landmark_min : forall t lm, extract_landmark cat_in sets t = Some lm ->
-  Forall (fun a => 0 < Analysis2.la_min a) lm.
-Proof.
-  intros t lm. unfold extract_landmark.
-  assert (Hone : forall nd, match extract_alt cat_in sets nd with Some a => Some [a] | None => None end = Some lm ->
-                  Forall (fun a => 0 < Analysis2.la_min a) lm).
-  { intros nd H. destruct (extract_alt cat_in sets nd) as [a|] eqn:E; [|discriminate]. injection H as <-.
-    constructor; [exact (cf_extract_alt_min nd a E)|constructor]. }
-  destruct (unwrap_t t) eqn:Eu; try (apply Hone).
-  destruct (all_some (map (extract_alt cat_in sets) l)) as [[|a r]|] eqn:E; try discriminate.
-  intros H. injection H as <-.
-  apply (cf_all_some_forall _ _ _ E). intros x Hx. apply in_map_iff in Hx. destruct Hx as (nd & Hnd & _).
-  exact (cf_extract_alt_min nd x Hnd).
-Qed.
-
-Lemma cf_lm_collect_min : forall l acc r, lm_collect cat_in sets l acc = Some r ->
-  Forall (Forall (fun a => 0 < Analysis2.la_min a)) acc -> Forall (Forall (fun a => 0 < Analysis2.la_min a)) r.
-Proof.
-  induction l as [|x l IH]; intros acc r H Hacc; cbn [lm_collect] in H; [injection H as <-; exact Hacc|].
-  destruct (extract_landmark cat_in sets x) as [lm|] eqn:E.
-  - apply (IH _ _ H). apply Forall_app. split; [exact Hacc|]. constructor; [exact (cf_extract_landmark_min x lm E)|constructor].
-  - destruct acc as [|a0 acc'].
-    + destruct (is_zero_width_gap x); [|discriminate]. exact (IH _ _ H Hacc).
-    + exact (IH _ _ H Hacc).
-Qed.
-
-Lemma cf_chain_static : forall loop lms, find_landmark_chain cat_in sets root = Some (loop, lms) ->
-  Forall (Forall (fun a => 0 < Analysis2.la_min a)) lms.
-Proof.
-  intros loop lms. unfold find_landmark_chain. cbv zeta.
-  destruct (match root with NCapture o _ _ _ | NConcat o _ => is_rtl o | _ => false end); [discriminate|].
-  destruct (unwrap_t root); try discriminate.
-  destruct (zlen l <? 4); [discriminate|]. destruct l as [|first rest]; [discriminate|].
-  destruct (is_set_loop_inf (unwrap_t first)) as [lp|]; [|discriminate].
-  destruct (lm_collect cat_in sets rest []) as [r|] eqn:E; [|discriminate].
-  destruct (zlen r <? 2); [discriminate|]. intros H. injection H as <- <-.
-  apply (cf_lm_collect_min rest [] r E). constructor.
-Qed.
-
-Lemma cf_chain_len : forall loop lms, find_landmark_chain cat_in sets root = Some (loop, lms) -> 2 <= zlen lms.
-Proof.
-  intros loop lms. unfold find_landmark_chain. cbv zeta.
-  destruct (match root with NCapture o _ _ _ | NConcat o _ => is_rtl o | _ => false end); [discriminate|].
-  destruct (unwrap_t root); try discriminate.
-  destruct (zlen l <? 4); [discriminate|]. destruct l as [|first rest]; [discriminate|].
-  destruct (is_set_loop_inf (unwrap_t first)) as [lp|]; [|discriminate].
-  destruct (lm_collect cat_in sets rest []) as [r|]; [|discriminate].
-  destruct (zlen r <? 2) eqn:E2; [discriminate|]. intros H. injection H as <- <-. lia.
-Qed.
-
-Lemma cf_alts_wf : forall alts, Forall (fun a => 0 < Analysis2.la_min a) alts -> fd_alts_wf (map cf_alt alts).
-Proof.
-  intros alts H a Hin. apply in_map_iff in Hin. destruct Hin as (a0 & <- & Hin0).
-  rewrite Forall_forall in H. specialize (H a0 Hin0). cbn [cf_alt Finder.la_min]. lia.
-Qed.
-
-Lemma cf_chain_wf : forall lms, Forall (Forall (fun a => 0 < Analysis2.la_min a)) lms -> fd_chain_wf (map (map cf_alt) lms).
-Proof.
-  induction lms as [|alts lms IH]; intros H; cbn [map fd_chain_wf]; [exact I|].
-  inversion H; subst. split; [apply cf_alts_wf; assumption|apply IH; assumption].
-Qed.
-
-(* one alternative: the analysis' [alt_at] gives the finder's [fd_alt_match_at] *)
-Lemma cf_alt_match : forall a s c en t, alt_at e a s c en t ->
-  fd_alt_match_at (txt e) (set_in e) (cf_alt a) c en /\ 0 <= s <= c /\ en <= t <= n /\
-  (forall i, s <= i < c -> fd_opt_set_in (set_in e) (la_lead a) (nth (Z.to_nat i) (txt e) 0) = true).
-Proof.
-  intros a s c en t (Hlead & Hrb & Hcore & Htrail & Hra & Hs0 & Htn).
-  unfold tlen in Htn.
-  assert (Hsc : s <= c) by (unfold ws_run in Hlead; destruct (la_lead a); [exact (proj1 Hlead)|lia]).
-  assert (Het : en <= t) by (unfold ws_run in Htrail; destruct (la_trail a); [exact (proj1 Htrail)|lia]).
-  split; [|split; [lia|split; [unfold tlen; lia|]]].
-  - unfold fd_alt_match_at. cbn [cf_alt Finder.la_req_before Finder.la_req_after la_lead_ws la_trail_ws la_literal
-                                 Finder.la_set Finder.la_min Finder.la_max].
-    split; [|split].
-    + intros Hb. specialize (Hrb Hb). split; [lia|]. unfold ws_run in Hlead.
-      destruct (la_lead a) as [ws|]; [|lia]. exists ws. split; [reflexivity|]. apply (proj2 Hlead). lia.
-    + destruct (Analysis2.la_set a) as [sid|].
-      * destruct Hcore as (Hl & Hmn & Hb & Hrun). right. split; [exact Hl|]. exists sid. split; [reflexivity|].
-        split; [exact Hmn|]. split.
-        -- unfold fd_alt_emax. cbn [cf_alt Finder.la_max Finder.la_min]. destruct (Analysis2.la_max a <=? 0) eqn:E; lia.
-        -- split; [lia|exact Hrun].
-      * destruct Hcore as (Hl & Hen & Hch). left. split; [exact Hl|]. split; [exact Hen|].
-        apply fd_prefix_match_intro.
-        -- rewrite fd_zlen_skipn by (unfold tlen in Htn; pose proof (fd_zlen_nonneg (la_lit a)); lia).
-           unfold tlen in Htn. lia.
-        -- intros j Hj. rewrite fd_nth_skipn_Z by lia. unfold fd_eq_exact. specialize (Hch j Hj).
-           unfold char_at in Hch. rewrite Hch. apply Z.eqb_refl.
-    + intros Ha. specialize (Hra Ha). split; [unfold tlen in Htn; lia|]. unfold ws_run in Htrail.
-      destruct (la_trail a) as [ws|]; [|lia]. exists ws. split; [reflexivity|]. apply (proj2 Htrail). lia.
-  - intros i Hi. unfold ws_run in Hlead. unfold fd_opt_set_in. destruct (la_lead a) as [ws|]; [|lia].
-    apply (proj2 Hlead). exact Hi.
-Qed.
-
-Lemma cf_chain_rest : forall lms from from', chain_from e lms from -> from' <= from ->
-  fd_chain_rest (txt e) (set_in e) (map (map cf_alt) lms) from'.
-Proof.
-  induction lms as [|alts lms IH]; intros from from' H Hle; cbn [map fd_chain_rest]; [exact I|].
-  cbn [chain_from] in H. destruct H as (a & s & c & en & t & Hin & Hfs & Hat & Hrest).
-  destruct (cf_alt_match a s c en t Hat) as (Hm & Hsc & Het & _).
-  exists (cf_alt a), c, en. split; [apply in_map; exact Hin|]. split; [lia|]. split; [lia|]. split; [exact Hm|].
-  apply (IH t en Hrest). lia.
-Qed.
 
 Lemma cf_chain_fact : forall loop alts rest,
   find_landmark_chain cat_in sets root = Some (loop, alts :: rest) ->
   fd_chain_fact st (txt e) exec (set_in e) loop (map cf_alt alts) (map (map cf_alt) rest).
-Proof.
+Proof using Hshape Hnoci Hlits Hshort.
+  clear Hvalid Hgood' Hgood Hagree Hlook Hfuel H3.
   intros loop alts rest Hc q Hq Hs.
   destruct (fc_succeeds_attempt e fuel root bumpq q Hs) as [s' Hat].
   destruct (a2_landmark_chain_sound e cat_in sets Hshort fuel root q s' loop (alts :: rest) Hshape Hnoci Hlits Hq Hc Hat)
     as (s1 & Hs1 & Hrun & Hfirst & _).
   cbn [chain_first] in Hfirst. destruct Hfirst as (a & c & en & t & Hin & Halt & Hrest).
-  destruct (cf_alt_match a s1 c en t Halt) as (Hm & Hsc & Het & Hws).
+  destruct (cf_alt_match e a s1 c en t Halt) as (Hm & Hsc & Het & Hws).
   exists (cf_alt a), s1, c, en. split; [apply in_map; exact Hin|]. split; [lia|]. split; [exact Hrun|].
-  split; [exact Hws|]. split; [exact Hm|]. apply (cf_chain_rest rest t en Hrest). lia.
+  split; [exact Hws|]. split; [exact Hm|]. apply (cf_chain_rest e rest t en Hrest). lia.
 Qed.
 
 (* RequiredLandmarkChain_LeftToRight: the published chain is what findRequiredLandmarkChain computes
@@ -707,13 +734,14 @@ Theorem cf_mode_landmark_chain_sound : forall (loop : Z) (lms : list (list lm_al
   forall start prevlen, 0 <= start <= n ->
   exists r, find e fuel root false start prevlen = Ok r /\
             scan n false (f_min f) (fd_total (fd_optimized_finder (txt e) (set_in e) (lower e) g)) exec start prevlen = Ok r.
-Proof.
+Proof using Hshape Hnoci Hlook Hfuel H3 Hlits Hshort.
+  clear Hvalid Hgood' Hgood Hagree.
   intros loop lms g Hc Hm Hmr Hch. apply cf_optimized_scan; [exact Hmr| |].
   - unfold fd_mode_handled. cbv zeta. rewrite Hm. reflexivity.
   - unfold fd_mode_fact. cbv zeta. rewrite Hm. cbn.
-    pose proof (cf_chain_static loop lms Hc) as Hst.
+    pose proof (cf_chain_static cat_in sets root loop lms Hc) as Hst.
     destruct lms as [|alts rest].
-    { exfalso. pose proof (cf_chain_len loop [] Hc) as Hlen. unfold zlen in Hlen. cbn [length] in Hlen. lia. }
+    { exfalso. pose proof (cf_chain_len cat_in sets root loop [] Hc) as Hlen. unfold zlen in Hlen. cbn [length] in Hlen. lia. }
     inversion Hst; subst.
     exists (cf_chain loop (alts :: rest)), loop, (map cf_alt alts), (map (map cf_alt) rest).
     split; [exact Hch|]. split; [reflexivity|]. split; [reflexivity|].
